@@ -118,8 +118,14 @@ def classify_c01(step, detail, root):
         return 'statement-ending-in-dangling-line-continuation'
     if step['field'] == 'orelse' and step['ttype'] == 'If':
         import re
-        if len(set(''.join(re.findall(r'^[ \t]+(?=\S)', root.src, re.M)))) > 1:
+        inds = re.findall(r'^[ \t]+(?=\S)', root.src, re.M)
+        widths = sorted({0} | {len(i) for i in inds})
+        deltas = {b - a for a, b in zip(widths, widths[1:])}
+        # the program does not use ONE indentation unit equal to the tree-wide root.indent (mixed characters, or blocks indented by different widths)
+        if len(set(''.join(inds))) > 1 or len(deltas) > 1 or (deltas and deltas != {len(getattr(root, 'indent', '    ') or '    ')}):
             return 'elif-expansion-uses-tree-indent-not-block-indent'
+    if step['field'] == 'decorator_list' and step['form'] == 'src' and any(c.rstrip(' \t').endswith('\\') for c in codes):
+        return 'decorator-source-ending-in-line-continuation-joined-with-def'
     try:
         ast.parse(root.src)
     except SyntaxError as e:
